@@ -49,10 +49,6 @@ def ReqsOK (t : Ty) : List DOp → Prop
   | .req r :: ops => r.ty = t ∧ r.init = [] ∧ ReqsOK t ops
   | .send _ _ :: ops => ReqsOK t ops
 
-theorem carries_false_iff (r : DReq) : r.carries = false ↔ r.sub = [] ∧ r.unsub = [] := by
-  unfold DReq.carries
-  cases r.sub <;> cases r.unsub <;> simp
-
 /-- One request of ANY shape on a watched, name-recording type: the record becomes the old record with the
     carried change applied; nothing else about the request matters. -/
 theorem delta_step_record (s : State) (r : DReq) (prev : WR)
@@ -109,14 +105,6 @@ theorem delta_step_record (s : State) (r : DReq) (prev : WR)
         · exact absurd (Or.inr (Or.inr hcc)) hkept
       rw [delta_stale_nonce_silent s r prev he hprev hn hst hcf]
       exact ⟨prev, by simpa [DRes.state] using hprev, unchanged hcf⟩
-
-/-- A send never touches the recorded names of a named type. -/
-theorem sendDelta_names (s : State) (t : Ty) (n : String) (ok : Bool) (prev : WR) (hprev : s t = some prev) :
-    ∃ w, sendDelta s t n none ok t = some w ∧ w.names = prev.names := by
-  unfold sendDelta
-  cases ok
-  · exact ⟨prev, by simpa using hprev, rfl⟩
-  · exact ⟨{ prev with nonceSent := n }, by simp [hprev], rfl⟩
 
 theorem asked_congr (m m' : String → Prop) (h : ∀ x, m x ↔ m' x) (ops : List DOp) :
     ∀ x, asked m ops x ↔ asked m' ops x := by
